@@ -103,6 +103,11 @@ func specFromCase(cs CaseSpec) ScheduleSpec {
 		sp.DupProb = 0.08
 		sp.EmptyProb = 0.04
 	}
+	if cs.I("notrunc", 0) == 1 {
+		// whole syncs: nothing truncated below the configured sync limit
+		sp.TruncProb = 0
+		sp.DropProb = 0.03
+	}
 	if cs.I("harshfaults", 0) == 1 {
 		sp.DropProb = 0.15 + 0.25*r.Float64()
 		sp.TruncProb = 0.2 + 0.3*r.Float64()
@@ -306,6 +311,18 @@ func init() {
 				cs = append(cs, CaseSpec{Kind: "history",
 					P: map[string]int64{"n": int64(5 + j%3), "steps": int64(260 + 20*(j%6)), "leaves": 2, "closeleaves": 1, "closeoncommit": 1, "lagatsecond": int64(j % 2), "trickle": int64((j / 2) % 2), "badger": 0},
 					S: map[string]string{"shape": []string{"lag", "partition", "uniform", "split"}[j%4]}})
+			}
+			// a validator that hears nothing for more than half of a long history and
+			// then receives its backlog (several hundred events) in whole syncs of the
+			// default limit, while the others go on
+			deep := 4
+			if tier == "thorough" {
+				deep = 40
+			}
+			for j := 0; j < deep; j++ {
+				cs = append(cs, CaseSpec{Kind: "history",
+					P: map[string]int64{"n": int64(4 + j%2), "steps": int64(1300 + 150*(j%3)), "notrunc": 1, "badger": 0, "deeplag": 1},
+					S: map[string]string{"shape": "lag"}})
 			}
 			soaks := 2
 			if tier == "thorough" {
